@@ -539,7 +539,8 @@ func (r *Runner) adminMsg(in *Input) sdk.Msg {
 			OriginalMessage: []byte("orig-msg-" + in.Who), OriginalAttestation: []byte("att-" + in.Who),
 			NewDestinationCaller: r.w.bytesOf(in.Fw.Caller), NewMintRecipient: r.w.bytesOf(in.Fw.Mint)}
 	}
-	panic(machineryError{"unknown rpc " + in.Rpc})
+	// an RPC the specification does not model (added to the module later): default body
+	return r.w.defaultMsg(in.Rpc, signer)
 }
 
 // expandCps expands the "PAD:<n>" instruction into n fresh valid numeric ids (batch-size grid).
